@@ -334,6 +334,34 @@ def run_pipeline(case):
     if case.get("file"):
         text = (engine.REPO / "tests/data" / case["file"]).read_text()
         opts = [f"--ff={case['ff']}"] + list(case.get("opts", []))
+    elif case.get("kind") == "complex":
+        # peptide + nucleic strand + waters on the strand + an ion: every
+        # residue class is a neighbour of an optimisable group
+        import numpy as np
+
+        atoms = build.build_peptide(["ALA", "SER", "ALA"])
+        strand = build.build_strand(case["seq"], chain="N", start=101,
+                                    origin=(0.0, 22.0, 0.0))
+        atoms += strand
+        n = 201
+        for rs, nm in ((102, "O4'"), (101, "N3"), (103, "O2P"), (102, "N1")):
+            t = next((a for a in strand if a["res_seq"] == rs
+                      and a["name"] == nm), None)
+            if t is None:
+                continue
+            for di in case["dirs"]:
+                xyz = t["xyz"] + 2.8 * build.DIRECTIONS14[di]
+                if min(build.dist(xyz, a["xyz"]) for a in atoms) < 2.4:
+                    continue
+                atoms.append(build.water(xyz, n))
+                n += 1
+        og = next(a for a in atoms if a["name"] == "OG")
+        atoms.append(build.BAtom(
+            name="ZN", res_name="ZN", chain="A", res_seq=300, icode="",
+            xyz=og["xyz"] + np.array([0.0, 0.0, 3.4]), record="HETATM",
+            res_idx=-1))
+        text = build.pdb_text(atoms)
+        opts = [f"--ff={case['ff']}"] + list(case.get("opts", []))
     else:
         built = s3.build_case(case)
         if built is None:
@@ -366,22 +394,26 @@ def run_pipeline(case):
         size = c.cellsize
         caller = sys._getframe(2).f_code.co_name
         got = {id(b) for b in result}
-        if atom.cell is None:
-            return
         liveids = {id(b) for b in live}
         for b in live:
-            if b is atom or b.cell is None:
+            if b is atom:
                 continue
             d = ((atom.x - b.x) ** 2 + (atom.y - b.y) ** 2
                  + (atom.z - b.z) ** 2) ** 0.5
             if d < size and id(b) not in got:
                 counts["missed"] += 1
-                stale_q = (atom.cell != cell_key(size, atom.x, atom.y, atom.z)
-                           and _outside(atom, size) > 1e-6)
-                stale_b = (b.cell != cell_key(size, b.x, b.y, b.z)
-                           and _outside(b, size) > 1e-6)
-                why = ("query-atom-stale" if stale_q else
-                       "neighbour-stale" if stale_b else "cell-arithmetic")
+                if atom.cell is None:
+                    why = "query-atom-not-filed"
+                elif b.cell is None:
+                    why = "neighbour-not-filed"
+                else:
+                    stale_q = (
+                        atom.cell != cell_key(size, atom.x, atom.y, atom.z)
+                        and _outside(atom, size) > 1e-6)
+                    stale_b = (b.cell != cell_key(size, b.x, b.y, b.z)
+                               and _outside(b, size) > 1e-6)
+                    why = ("query-atom-stale" if stale_q else
+                           "neighbour-stale" if stale_b else "cell-arithmetic")
                 viol.append((f"C14/pipeline/missed-neighbour/{why}/"
                              f"caller={caller}",
                              {"atom": f"{atom.residue} {atom.name}",
@@ -483,6 +515,7 @@ def enumerate_cases(tier, seed):
     pipe += s3.water_cases("AMBER", names=polar_hosts)
     pipe += s3.two_water_cases("AMBER", names=["SER", "HIS", "ASN", "TYR",
                                                "ASH", "LYS"])
+    pipe += s3.tetra_partner_cases("AMBER")
     if tier == "thorough":
         pipe += s3.clash_cases("AMBER")
         pipe += s3.partner_cases("AMBER", s3.PARTNERS[:6],
@@ -492,6 +525,12 @@ def enumerate_cases(tier, seed):
         d = dict(d)
         d["mode"] = "pipeline"
         cases.append(d)
+    for seq in (["DA", "DT", "DG"], ["RG", "RU", "RC"]):
+        for dirs in ([0], [3], [6, 9], [1, 12]):
+            for opts in ([], ["--noopt"]):
+                cases.append({"mode": "pipeline", "kind": "complex",
+                              "seq": seq, "dirs": dirs, "ff": "AMBER",
+                              "opts": opts})
     for f in ("1AJJ.pdb", "1BX8.pdb", "1A1P.pdb", "cterm_hid.pdb"):
         for opts in ([], ["--noopt"]):
             cases.append({"mode": "pipeline", "file": f, "ff": "AMBER",
